@@ -395,6 +395,82 @@ func init() {
 	}
 }
 
+// special-operand cells of the iterative functions: every function x operand kind (x operand kind for
+// Pow, with exponents that are odd / even integers in several spellings, fractions and infinities)
+func init() {
+	streams["special-fn"] = func(r *rng, n int) {
+		kinds := specialOperands()
+		kinds = append(kinds, mkDec(apd.Finite, false, big.NewInt(1), 0), mkDec(apd.Finite, false, big.NewInt(10), -1),
+			mkDec(apd.Finite, false, big.NewInt(100000), -5), mkDec(apd.Finite, true, big.NewInt(100), -2))
+		var ykinds []*apd.Decimal
+		ykinds = append(ykinds, kinds...)
+		for _, neg := range []bool{false, true} {
+			for _, ce := range [][2]int{{3, 0}, {4, 0}, {3, 1}, {5, 2}, {30, -1}, {40, -1}, {25, -1}, {7000, -3}, {7001, -3}, {1, 3}, {0, 2}, {5, -1}, {2, 0}} {
+				ykinds = append(ykinds, mkDec(apd.Finite, neg, big.NewInt(int64(ce[0])), ce[1]))
+			}
+		}
+		ctxs := []apd.Context{
+			{Precision: 5, MaxExponent: 20, MinExponent: -20},
+			{Precision: 2, MaxExponent: 3, MinExponent: 0, Traps: apd.DefaultTraps},
+			{Precision: 7, MaxExponent: 9, MinExponent: -9, Traps: apd.InvalidOperation | apd.Inexact},
+		}
+		rs := []apd.Rounder{apd.RoundHalfEven, apd.RoundFloor, apd.RoundDown, ""}
+		for _, op := range []string{"Sqrt", "Cbrt", "Exp", "Ln", "Log10", "Pow"} {
+			for _, c0 := range ctxs {
+				for _, rd := range rs {
+					c := c0
+					c.Rounding = rd
+					for _, x := range kinds {
+						if op == "Pow" {
+							for _, y := range ykinds {
+								if mine() {
+									emit(runArith(&arithCase{Op: op, Ctx: c, X: x, Y: y, Alias: "n", DPre: new(apd.Decimal)}))
+								}
+							}
+						} else if mine() {
+							emit(runArith(&arithCase{Op: op, Ctx: c, X: x, Alias: "n", DPre: new(apd.Decimal)}))
+						}
+					}
+				}
+			}
+		}
+		// random: special-heavy operands, aliased and dirty destinations
+		for i := 0; i < n; i++ {
+			ctx := r.genCtx(false)
+			op := []string{"Sqrt", "Cbrt", "Exp", "Ln", "Log10", "Pow", "Pow"}[r.intn(7)]
+			c := &arithCase{Op: op, Ctx: ctx, X: kinds[r.intn(len(kinds))], Alias: "n", DPre: r.genDest()}
+			if r.coin(40) {
+				c.X = r.genDec(&ctx, 70)
+			}
+			if op == "Pow" {
+				c.Y = ykinds[r.intn(len(ykinds))]
+				if r.coin(30) {
+					c.Y = r.genDec(&ctx, 70)
+				}
+				c.Alias = []string{"n", "n", "dx", "dy", "xy"}[r.intn(5)]
+			} else if r.coin(30) {
+				c.Alias = "dx"
+			}
+			// only cells the prologues decide are cheap; keep finite non-special operands small
+			// (the table's reading of "integer", "odd" and "compared with one" is plain integer arithmetic
+			// on 10^|exponent|: keep the exponents of this stream moderate)
+			if c.X.Exponent > 50 {
+				c.X.Exponent = 50
+			}
+			if c.X.Exponent < -60 {
+				c.X.Exponent = -60
+			}
+			if c.Y != nil && c.Y.Exponent > 3 {
+				c.Y.Exponent = 3
+			}
+			if c.Y != nil && c.Y.Exponent < -40 {
+				c.Y.Exponent = -40
+			}
+			emit(runArith(c))
+		}
+	}
+}
+
 func specialOperands() []*apd.Decimal {
 	var out []*apd.Decimal
 	for _, neg := range []bool{false, true} {
